@@ -3,8 +3,8 @@ package main
 // C03 — NETCONF requests on the wire are correctly framed and carry the caller's content.
 
 import (
-	"go/token"
 	"fmt"
+	"go/token"
 	"go/types"
 	"reflect"
 	"strings"
@@ -32,6 +32,8 @@ func init() {
 			"NOT decided: well-formedness of arbitrary caller XML, escaping by encoding/xml, the regular expression of the self-closing rewrite beyond the name-equality guard (selfclose-guard), decoding by an independent RFC 6242 parser.",
 		Assumptions: []string{"encoding/xml marshals struct tags as documented", "len() of a byte slice is its byte length (by construction)"},
 		Mutants: []Mutant{
+			{ID: "C03-write-strips-cr", Desc: "Channel.Write drops a trailing carriage return of what it is given", Rule: "C03/found-write-primitives",
+				Edits: []Edit{{File: "channel/write.go", Old: "func (c *Channel) Write(b []byte, r bool) error {\n", New: "func (c *Channel) Write(b []byte, r bool) error {\n\tif len(b) > 1 && b[len(b)-1] == '\\r' {\n\t\tb = b[:len(b)-1]\n\t}\n\n"}}},
 			{ID: "C03-rune-count", Desc: "chunk size counts characters, not bytes", Rule: "C03/framing",
 				Edits: []Edit{{File: "driver/netconf/message.go", Old: "fmt.Sprintf(\"#%d\\n\", len(msg))", New: "fmt.Sprintf(\"#%d\\n\", bytes.Count(msg, nil)-1)"}}},
 			{ID: "C03-second-return-skipped", Desc: "second return skipped when self-closing tags are forced", Rule: "C03/write-sequence",
@@ -67,6 +69,8 @@ func init() {
 
 func runC03(c *Ctx, r *Report) {
 	importFoundation(c, r, "C03", "client-hello")
+	importFoundation(c, r, "C03", "netconf-version")
+	importFoundation(c, r, "C03", "write-primitives")
 	r.Rule("C03/error-classes", "each failure site named by the property wraps the sentinel the property names (timeout / auth / connection / privilege / NETCONF / operation / platform error)", 1)
 	checkErrorClasses(c, r, "C03")
 	r.Rule("C03/framing", "serialize: payload, raw copy, 1.0 delimiter and 1.1 chunk framing with the byte length of the value that follows, on all 8 paths", 8)
